@@ -47,17 +47,25 @@ MODULES = {
     # which the two arrays do not overlap (the transform case); both for densmap_flag=False (`fixed`).  tau_rand_int is imported by
     # layouts.py from umap/utils.py (`imports`: checked against the current import statement) and translated into the same file.
     "layouts": {"path": "umap/layouts.py",
-                "functions": ["clip", "rdist", "tau_rand_int", _SGD_K + "_shared", _SGD_K + "_distinct"],
+                "functions": ["clip", "rdist", "tau_rand_int", _SGD_K + "_shared", _SGD_K + "_distinct", _SGD_K + "_dens_shared", _SGD_K + "_dens_distinct"],
                 "imports": {"tau_rand_int": ("umap.utils", "umap/utils.py")},
                 "sigs": {"tau_rand_int": {"args": {"state": VZ}},
                          _SGD_K + "_shared": {"source": _SGD_K, "args": _SGD_ARGS, "fixed": {"densmap_flag": False},
                                               "alias": {"tail_embedding": "head_embedding"}},
-                         _SGD_K + "_distinct": {"source": _SGD_K, "args": _SGD_ARGS, "fixed": {"densmap_flag": False}}},
-                "files": ["L_layouts.v", "L_sgd.v"], "eval": "E_layouts.v",
-                "deps": ["model/M_sgd.v", "thm/T_link_mat.v"]},
-    "umap_sup": {"path": "umap/umap_.py", "functions": ["fast_intersection", "make_epochs_per_sample"],
+                         _SGD_K + "_distinct": {"source": _SGD_K, "args": _SGD_ARGS, "fixed": {"densmap_flag": False}},
+                         # C17: the same source function translated for densmap_flag=True (the density term of the attractive step);
+                         # link file L_sgd_dens.v (imports L_sgd.v: compiled after it)
+                         _SGD_K + "_dens_shared": {"source": _SGD_K, "args": _SGD_ARGS, "fixed": {"densmap_flag": True},
+                                                   "alias": {"tail_embedding": "head_embedding"}},
+                         _SGD_K + "_dens_distinct": {"source": _SGD_K, "args": _SGD_ARGS, "fixed": {"densmap_flag": True}}},
+                "files": ["L_layouts.v", "L_sgd.v", "K_sgd.v", "L_sgd_dens.v"], "eval": "E_layouts.v",
+                "deps": ["model/M_sgd.v", "model/M_dens.v", "thm/T_link_mat.v", "thm/T_sgd.v"]},
+    # fast_metric_intersection: `metric` (a function argument) is an opaque function parameter, translated for metric_args=()
+    "umap_sup": {"path": "umap/umap_.py", "functions": ["fast_intersection", "make_epochs_per_sample", "fast_metric_intersection"],
                  "sigs": {"fast_intersection": {"args": {"rows": VZ, "cols": VZ, "values": V, "target": VZ, "unknown_dist": F, "far_dist": F}},
-                          "make_epochs_per_sample": {"args": {"weights": V, "n_epochs": I}}},
+                          "make_epochs_per_sample": {"args": {"weights": V, "n_epochs": I}},
+                          "fast_metric_intersection": {"args": {"rows": VZ, "cols": VZ, "values": V, "discrete_space": M, "scale": F},
+                                                       "opaque": {"metric": ([V, V], F)}, "fixed": {"metric_args": ()}}},
                  "files": ["L_supervised.v"]},
     "utils": {"path": "umap/utils.py", "functions": ["tau_rand_int", "norm"], "sigs": {"tau_rand_int": {"args": {"state": VZ}}},
               "files": ["L_utils.v"]},
@@ -154,6 +162,42 @@ MODULES["sparse_sset"] = {
     "sigs": {"general_sset_union": {"args": _SSET_ARGS}, "general_sset_intersection": {"args": _SSET_ARGS, "defaults": True}},
     "files": ["L_sset.v", "K_sset.v"], "eval": "E_sset.v",
     "deps": ["model/M_supervised.v", "model/M_combine.v", "model/M_csr.v", "thm/T_supervised.v", "thm/T_combine.v", "thm/T_csr.v"],
+}
+
+# densMAP (layouts.py, C17): the per-epoch density statistics kernel `_optimize_layout_euclidean_densmap_epoch_init` (`re_sum.fill(0)`,
+# the accumulation loop over the edges -- a numba.prange read as range: the sequential meaning, see L_dens.v --, the final
+# `re_sum[i] = np.log(epsilon + re_sum[i] / phi_sum[i])`).  Translated twice from the one source function, as the SGD kernel is:
+# `_shared` (tail_embedding IS head_embedding, the fit case) and `_distinct`.  Its own module (generated file Src_layouts_dens.v) so
+# that the cache key of "layouts" (C07) stays untouched.
+_DENS_INIT = "_optimize_layout_euclidean_densmap_epoch_init"
+_DENS_INIT_ARGS = {"head_embedding": M, "tail_embedding": M, "head": VZ, "tail": VZ, "a": F, "b": F, "re_sum": V, "phi_sum": V}
+MODULES["layouts_dens"] = {
+    "path": "umap/layouts.py", "functions": ["rdist", _DENS_INIT + "_shared", _DENS_INIT + "_distinct"],
+    "sigs": {_DENS_INIT + "_shared": {"source": _DENS_INIT, "args": _DENS_INIT_ARGS, "alias": {"tail_embedding": "head_embedding"}},
+             _DENS_INIT + "_distinct": {"source": _DENS_INIT, "args": _DENS_INIT_ARGS}},
+    "files": ["L_dens.v"], "eval": "E_dens.v",
+    "deps": ["model/M_sgd.v", "model/M_dens.v", "thm/T_link_mat.v", "thm/T_link_arr.v"],
+}
+
+
+# _optimize_layout_generic_single_epoch (layouts.py, C07): the epoch kernel for non-Euclidean output metrics.  `output_metric` (a numba
+# first-class function argument) is a FUNCTION PARAMETER of the generated definition (`fnargs`: two 1-d float arrays -> (float, 1-d float
+# array)); the translation is for calls with `output_metric_kwds == ()` (`empty_star`: the parameter disappears, `*output_metric_kwds`
+# contributes no argument).  Two variants as for the Euclidean kernel (module "layouts"); own generated file Src_layouts_generic.v.
+_SGDG_K = "_optimize_layout_generic_single_epoch"
+_SGDG_ARGS = {"epochs_per_sample": V, "epoch_of_next_sample": V, "head": VZ, "tail": VZ, "head_embedding": M, "tail_embedding": M,
+              "dim": I, "alpha": F, "move_other": B, "n": I, "epoch_of_next_negative_sample": V, "epochs_per_negative_sample": V,
+              "rng_state_per_sample": MZ, "n_vertices": I, "a": F, "b": F, "gamma": F}
+_SGDG_SIG = {"source": _SGDG_K, "args": _SGDG_ARGS, "fnargs": {"output_metric": ([V, V], (F, V))}, "empty_star": ["output_metric_kwds"]}
+MODULES["layouts_generic"] = {
+    "path": "umap/layouts.py",
+    "functions": ["clip", "tau_rand_int", _SGDG_K + "_shared", _SGDG_K + "_distinct"],
+    "imports": {"tau_rand_int": ("umap.utils", "umap/utils.py")},
+    "sigs": {"tau_rand_int": {"args": {"state": VZ}},
+             _SGDG_K + "_shared": dict(_SGDG_SIG, alias={"tail_embedding": "head_embedding"}),
+             _SGDG_K + "_distinct": dict(_SGDG_SIG)},
+    "files": ["L_sgdg.v"], "eval": "E_layouts_generic.v",
+    "deps": ["model/M_sgd.v", "model/M_sgdg.v", "thm/T_link_mat.v", "thm/T_link_sgd.v", "thm/T_sgdg.v"],
 }
 
 
@@ -291,11 +335,11 @@ def prepare(module, timeout=600):
 
 def _check_link_file(res, d, fname, ftext, timeout):
     """compile the link file; a failing theorem is recorded and cut out (its statement is kept as a comment) so that the
-    remaining theorems are still checked; at most 12 rounds"""
+    remaining theorems are still checked; at most 40 rounds (K_sgd.v has 20 corollaries that all depend on the two link theorems)"""
     cur = ftext
     names = [n for n, _, _ in theorem_spans(ftext)]
     path = os.path.join(d, fname)
-    for _ in range(12):
+    for _ in range(40):
         open(path, "w").write(cur)
         ok, so, se, _ = _coqc(path, d, timeout)
         if ok:
@@ -318,7 +362,7 @@ def _check_link_file(res, d, fname, ftext, timeout):
         res.theorems[n] = "no longer checks: " + msg
         cur = cur[:a] + "(* FAILED: " + n + " *)" + cur[b:]
     else:
-        res.errors.append("%s: more than 12 failing theorems" % fname)
+        res.errors.append("%s: more than 40 failing theorems" % fname)
     good = [n for n in names if n not in res.theorems]
     # Print Assumptions for every theorem that checked
     mod = fname[:-2]
